@@ -316,6 +316,7 @@ func build(b *Base, faults []Site) *built {
 			in.Extra = append(in.Extra, o)
 		}
 	}
+	var substPP *graph.WrapPP
 	for _, f := range faults {
 		if f.Kind == "unsat-uninjectable" {
 			var c any
@@ -335,7 +336,11 @@ func build(b *Base, faults []Site) *built {
 		}
 		if f.Kind == "pp-after-subst" {
 			// the component is substituted before instantiation; observer f.A rejects the substitute after initialization
-			in.Extra = append(in.Extra, &graph.WrapPP{Plan: map[string]graph.WrapPlan{f.Name: {Inst: graph.WrapNew}}, IDOf: idOf})
+			if substPP == nil {
+				substPP = &graph.WrapPP{Plan: map[string]graph.WrapPlan{}, IDOf: idOf}
+				in.Extra = append(in.Extra, substPP)
+			}
+			substPP.Plan[f.Name] = graph.WrapPlan{Inst: graph.WrapNew}
 		}
 	}
 	fpp := &FactoryPP{fired: &bu.fired}
